@@ -253,6 +253,59 @@ Fixpoint no_pull_while_waiting (srv cli : list N) (waiting : option N) (tr : lis
 Definition obs_c02_no_pull_while_request_waits (tr : list rev) : bool :=
   no_pull_while_waiting (server_labels tr) (client_labels tr) None tr.
 
+(** a stream that has ended is never asked again: the bound replier's (it is unbound), a requestor's
+    (the StreamMap drops it); [labs] selects which streams are looked at *)
+Fixpoint rno_poll_after_end (labs ended : list N) (tr : list rev) : bool :=
+  match tr with
+  | [] => true
+  | VStream l r :: t =>
+    if memb l labs then
+      if memb l ended then false
+      else rno_poll_after_end labs (match r with FEnd => l :: ended | _ => ended end) t
+    else rno_poll_after_end labs ended t
+  | _ :: t => rno_poll_after_end labs ended t
+  end.
+(** the bound replier: when its stream ends the router flushes the replier's sink, then the
+    requestors' sinks, and unbinds it; a Pending answer to one of these flushes ends the poll with
+    the replier still bound (its fused stream is asked again next time).  Once both flushes have
+    gone through, the replier is gone and its stream is never asked again.
+    [phase]: 0 = nothing under way; 1 = [who]'s stream just ended, its own flush is next;
+    2 = own flush answered Ok / Err, the requestors' flush pass is under way *)
+Fixpoint replier_gone_ok (srv gone : list N) (who : N) (phase : nat) (tr : list rev) : bool :=
+  match tr with
+  | [] => true
+  | e :: t =>
+    let settle_gone := match phase with 2%nat => who :: gone | _ => gone end in
+    match e with
+    | VStream l r =>
+      if memb l settle_gone then false
+      else match r with
+           | FEnd => if memb l srv then replier_gone_ok srv settle_gone l 1 t else replier_gone_ok srv settle_gone who 0 t
+           | _ => replier_gone_ok srv settle_gone who 0 t
+           end
+    | VSink l OFlush r =>
+      match phase with
+      | 1%nat => if l =? who then (match r with RPending => replier_gone_ok srv gone who 0 t | _ => replier_gone_ok srv gone who 2 t end)
+                 else replier_gone_ok srv gone who 0 t
+      | 2%nat => (match r with RPending => replier_gone_ok srv gone who 0 t | _ => replier_gone_ok srv gone who 2 t end)
+      | _ => replier_gone_ok srv gone who 0 t
+      end
+    | _ => replier_gone_ok srv settle_gone who 0 t
+    end
+  end.
+Definition obs_replier_not_polled_after_end (tr : list rev) : bool := replier_gone_ok (server_labels tr) [] 0 0 tr.
+Definition obs_requestor_not_polled_after_end (tr : list rev) : bool := rno_poll_after_end (client_labels tr) [] tr.
+
+(** once the registration channel is closed the router asks no stream any more *)
+Fixpoint rno_pull_after_close (closed : bool) (tr : list rev) : bool :=
+  match tr with
+  | [] => true
+  | VClose _ :: t => rno_pull_after_close true t
+  | VStream _ _ :: t => if closed then false else rno_pull_after_close closed t
+  | _ :: t => rno_pull_after_close closed t
+  end.
+Definition obs_rr_no_pull_after_close (tr : list rev) : bool := rno_pull_after_close false tr.
+
 Definition rcompleted (tr : list rev) : bool := existsb (fun e => match e with VEnd true => true | _ => false end) tr.
 
 (** C09 on traces: peer calls per poll bounded by the data consumed in it *)
